@@ -56,7 +56,7 @@ def coordinate(fw, top_pid, sched, query, timeout=90, end_role="main"):
     ops = 0
     granted = []
     while end_role not in exited and time.time() < deadline and crashed is None:
-        if busy is not None and time.time() - busy_since > 5.0:
+        if busy is not None and time.time() - busy_since > 20.0:
             busy = None  # the operation blocks inside the real primitive (possible after a divergence only)
             free_run = True
             divergence = divergence or "operation %s did not complete (blocked inside the real primitive)" % (granted[-1:],)
